@@ -462,6 +462,192 @@ def generator_tables(w):
     return c
 
 
+# ---------------------------------------------------------------- hand-modelled methods: statement lists must be the modelled ones
+# (compared as ASTs, docstrings and comments aside; %(name)s holes are the literals captured above)
+HAND_MODELLED = {
+    'get_present_sections': """
+data_present = dict(zip(
+    t2data_sections,
+    [self.simulator,
+     self.grid and self.grid.rocktypelist,
+     self.parameter,
+     np.any(self.more_option),
+     self.start,
+     self.noversion,
+     self.relative_permeability or self.capillarity,
+     self.lineq,
+     self.solver,
+     self.multi,
+     self.output_times,
+     self.selection,
+     self.diffusion,
+     self.grid,
+     self.grid,
+     self.meshmaker,
+     self.generatorlist,
+     self.short_output,
+     self.history_block,
+     self.history_connection,
+     self.history_generator,
+     self.incon,
+     self.indom]))
+return [keyword for keyword in t2data_sections if data_present[keyword]]
+""",
+    'insert_section': """
+if section not in self._sections:
+    i = self.section_insertion_index(section)
+    self._sections.insert(i, section)
+""",
+    'delete_section': """
+try: self._sections.remove(section)
+except ValueError: pass
+""",
+    'section_insertion_index': """
+try:
+    listindex = t2data_sections.index(section)
+    if listindex == 0: return 0
+    else:
+        for i in reversed(range(listindex)):
+            try:
+                section_index = self._sections.index(t2data_sections[i])
+                return section_index + 1
+            except ValueError: pass
+        for i in range(listindex, len(t2data_sections)):
+            try:
+                section_index = self._sections.index(t2data_sections[i])
+                return section_index
+            except ValueError: pass
+        return len(self._sections)
+except ValueError: return len(self._sections)
+""",
+    'update_sections': """
+present = self.present_sections
+missing = [keyword for keyword in present if keyword not in self._sections]
+for keyword in missing: self.insert_section(keyword)
+extra = [keyword for keyword in self._sections if keyword not in present]
+for keyword in extra: self.delete_section(keyword)
+""",
+    'convert_AUTOUGH2_generators_to_TOUGH2': """
+allowed = %(allowed)r
+convert = %(convert)r
+delgens, keepgens = [], []
+for gen in self.generatorlist:
+    if gen.type in convert: gen.type = convert[gen.type]
+    elif not ((gen.type in allowed) or gen.type.startswith(%(allowed_prefix)r)):
+        delgens.append((gen.block, gen.name))
+        continue
+    keepgens.append(gen)
+self.generatorlist[:] = keepgens
+self.generator = dict([((gen.block, gen.name), gen) for gen in keepgens])
+if 'generator' in self.short_output:
+    self.short_output['generator'] = [gen for gen in self.short_output['generator']
+                                      if gen in keepgens]
+if warn and len(delgens) > 0:
+    print('The following generators have types not supported' + \
+          ' by TOUGH2 and have been deleted:')
+    print(delgens)
+""",
+    'convert_short_to_history': """
+if 'block' in self.short_output:
+    self.history_block = self.short_output['block'][:]
+if 'connection' in self.short_output:
+    self.history_connection = self.short_output['connection'][:]
+if 'generator' in self.short_output:
+    self.history_generator = []
+    for gen in self.short_output['generator']:
+        blk = self.grid.block[gen.block] if gen.block in self.grid.block \
+              else gen.block
+        if blk not in self.history_generator: self.history_generator.append(blk)
+self.short_output = {}
+""",
+    'convert_history_to_short': """
+self.short_output = {}
+if self.history_block:
+    blks = [self.grid.block[blk] if blk in self.grid.block else blk
+            for blk in self.history_block]
+    blks = [blk for blk in blks if isinstance(blk, t2block)]
+    if blks: self.short_output['block'] = blks
+if self.history_connection:
+    cons = [self.grid.connection[con] if con in self.grid.connection else con
+            for con in self.history_connection]
+    cons = [con for con in cons if isinstance(con, t2connection)]
+    if cons: self.short_output['connection'] = cons
+if self.history_generator:
+    blknames = [blk.name if isinstance(blk, t2block) else blk
+                for blk in self.history_generator]
+    gens = [gen for gen in self.generatorlist if gen.block in blknames]
+    if gens: self.short_output['generator'] = gens
+self.history_block = []
+self.history_connection = []
+self.history_generator = []
+""",
+    'add_generator': """
+if generator is None: generator = t2generator()
+self.generatorlist.append(generator)
+self.generator[(generator.block, generator.name)] = self.generatorlist[-1]
+""",
+}
+
+
+def hand_modelled(w, c):
+    import textwrap
+    holes = dict(c['gen'])
+    for name, tmpl in HAND_MODELLED.items():
+        f = w.method(name)
+        text = textwrap.dedent(tmpl % holes if '%(' in tmpl else tmpl)
+        if not src_eq(nodoc(f), text):
+            raise Refusal('%s %s: the statement list differs from the one the hand model (coq/C20/Convert.v) was written against' % (name, where(f)))
+    # rocks_json / generators_json loops the export model follows
+    f = w.method('rocks_json')
+    loop = [n for n in f.body if isinstance(n, ast.For) and isinstance(n.iter, ast.Attribute) and n.iter.attr == 'block_name_list']
+    tmpl = """
+for blkname in geo.block_name_list:
+    blk = self.grid.block[blkname]
+    rockname = blk.rocktype.name
+    blk_index = geo.block_name_index[blk.name] - geo.num_atmosphere_blocks
+    if 0. < blk.volume < atmos_volume:
+        jsondata['rock']['types'][rock_index[rockname]]['cells'].append(blk_index)
+"""
+    if len(loop) != 1 or not src_eq(loop, textwrap.dedent(tmpl)):
+        raise Refusal('rocks_json %s: the block loop differs from the modelled one' % where(f))
+    f = w.method('generators_json')
+    inner = [n for n in ast.walk(f) if isinstance(n, ast.FunctionDef) and n.name == 'generator_json'][0]
+    cell = [n for n in inner.body if isinstance(n, ast.If) and isinstance(n.test, ast.Compare) and isinstance(n.test.ops[0], ast.In)
+            and isinstance(n.test.comparators[0], ast.Attribute) and n.test.comparators[0].attr == 'block_name_index']
+    tmpl = """
+if gen.block in geo.block_name_index:
+    cell_index = geo.block_name_index[gen.block] - geo.num_atmosphere_blocks
+    if cell_index < 0: cell_index = None
+else:
+    cell_index = None
+"""
+    if len(cell) != 1 or not src_eq(cell, textwrap.dedent(tmpl)):
+        raise Refusal('generators_json %s: the cell index computation differs from the modelled one' % where(inner))
+    nxt = inner.body[inner.body.index(cell[0]) + 1]
+    if not src_eq([nxt], "g = {'name': unique_name(gen), 'cell': cell_index}"):
+        raise Refusal("generators_json %s: expected g = {'name': unique_name(gen), 'cell': cell_index}" % where(nxt))
+    f = w.method('eos_json')
+    body = nodoc(f)
+    sel = [n for n in body if isinstance(n, ast.If) and isinstance(n.test, ast.Compare) and isinstance(n.test.ops[0], ast.Is)]
+    tmpl = """
+if eos is None:
+    if self.multi:
+        if %(k)r in self.multi:
+            if self.multi[%(k)r]: aut2eosname = self.multi[%(k)r].strip()
+    if not aut2eosname and self.simulator:
+        for eosname in supported_eos.keys():
+            if self.simulator.strip().endswith(eosname):
+                aut2eosname = eosname
+else:
+    if isinstance(eos, int):
+        eos_from_index = %(idx)r
+        if eos in eos_from_index: aut2eosname = eos_from_index[eos]
+    else: aut2eosname = eos
+""" % {'k': c['eos']['multi_eos_key'], 'idx': c['eos']['eos_from_index']}
+    if len(sel) != 1 or not src_eq(sel, textwrap.dedent(tmpl)):
+        raise Refusal('eos_json %s: the EOS name selection differs from the modelled one' % where(f))
+
+
 def collect(repo):
     w = Walk(repo)
     c = {'sections': w.mod.literal('t2data_sections')}
@@ -480,6 +666,7 @@ def collect(repo):
     c['au_prog'] = MopTranslator(f.name).stmts(mop)
     c['eos'] = eos_tables(w)
     c['gj'] = generator_tables(w)
+    hand_modelled(w, c)
     f = w.method('convert_mulkom_heat_conductivity')
     if not src_eq(nodoc(f), 'for rt in self.grid.rocktypelist:\n rt.conductivity *= (1. - rt.porosity)'):
         raise Refusal('convert_mulkom_heat_conductivity: body differs from `conductivity *= (1. - porosity)` over rocktypelist')
